@@ -333,10 +333,11 @@ class Ctx:
         return d.value
 
     # -- obligations ------------------------------------------------------------------------
-    def prove(self, name, goal, kind="post", info=None, extra_pool=(), pool=None, live=()):
+    def prove(self, name, goal, kind="post", info=None, extra_pool=(), pool=None, live=(), without=()):
         """pool: explicit instantiation terms for this obligation (instead of the path's whole index pool)
         live: skolem variables the claim is deliberately quantified over although the goal term does not mention them
-        (the obligation then reads  forall live. guards(live) -> goal)"""
+        (the obligation then reads  forall live. guards(live) -> goal)
+        without: name fragments of schematic hypotheses NOT to use for this obligation (fewer hypotheses: sound; keeps the VC small)"""
         goal = as_bool_term(goal)
         if kind == "post":
             self.script_phase = True
@@ -349,6 +350,8 @@ class Ctx:
             hyps = [h for h in hyps if not (consts_of(h) & dead)]
             schemas = [sc for sc in schemas if not (schema_consts(sc) & dead)]
             guards = [g for g in guards if not (consts_of(g) & dead)]
+        if without:
+            schemas = [sc for sc in schemas if not any(w in sc.name for w in without)]
         ob = Obligation(name, hyps, schemas, use, goal, kind, info, derivers=self.derivers)
         ob.guards = list(guards)
         ob.dropped_for_dead_skolems = len(self.hyps) - len(hyps) + len(self.schemas) - len(schemas)
